@@ -447,14 +447,23 @@ theorem applyRules_wf (outer : List Name) (rules : List Rule) (kind : Kind)
 def GraphEquiv {V} (sem : Sem V) (d : Nat) (g g' : Graph) : Prop :=
   ∀ outer args, evalGraph sem (d + 1) outer g' args = evalGraph sem (d + 1) outer g args
 
-/-- **Write-back of rewritten bodies (`hbody` of `applyRules_preserves`, for If/Loop bodies alike).**
-If the bodies handed back by the recursion are pairwise equivalent to the node's bodies (as
-functions of enclosing environment and arguments, at depth `d`) and capture the same outer names,
-the enclosing graph keeps its meaning.  (Remaining gap: a rewrite that makes a body capture
-*fewer* names — e.g. a replacement that drops a bound input — changes `caps`; covering it needs
-"a body's meaning depends only on the names it mentions", not proved here.) -/
+/-- **A graph's meaning depends on the enclosing scopes only through the names it mentions**
+(`mentions g` = what its nodes read, captures of their bodies included, and its outputs): two
+enclosing environments that agree on these names give the same result, at every depth. -/
+theorem evalGraph_depends_on_mentions {V} (sem : Sem V) (d : Nat) (g : Graph) (outer outer' : Env V)
+    (args : List (Option V)) (h : ∀ x ∈ mentions g, outer x = outer' x) :
+    evalGraph sem d outer g args = evalGraph sem d outer' g args :=
+  evalGraph_congr_outer sem d g outer outer' args h
+
+/-- **Write-back of rewritten bodies (`hbody` of `applyRules_preserves`, for If/Loop bodies alike),
+captures may shrink.**  If the bodies handed back by the recursion are pairwise equivalent to the
+node's bodies (as functions of enclosing environment and arguments, at depth `d`), the new
+captures are among the old ones, and every formerly captured name a new body still mentions is
+still captured (`BodiesShrink`), the enclosing graph keeps its meaning.  A replacement that drops
+a bound input (so the body captures *fewer* outer names) is covered. -/
 theorem writeBack_equiv {V} (sem : Sem V) (d : Nat) (g : Graph) (cur : Nat) (subs' : List (String × Graph))
-    (h : ∀ n ∈ g.nodes, n.id = cur → capsOf BIG subs' = n.caps ∧ BodiesEquiv (evalGraph sem d) subs' n.subs) :
+    (h : ∀ n ∈ g.nodes, n.id = cur → (∀ x ∈ capsOf BIG subs', x ∈ n.caps) ∧
+      BodiesShrink sem d n.caps (capsOf BIG subs') subs' n.subs) :
     GraphEquiv sem d g (g.setNodes (g.nodes.map fun n =>
       if n.id == cur then n.setBodies (capsOf BIG subs') subs' else n)) := by
   intro outer args
@@ -472,21 +481,40 @@ theorem writeBack_equiv {V} (sem : Sem V) (d : Nat) (g : Graph) (cur : Nat) (sub
     · obtain ⟨hc, hb⟩ := h n hn hid
       have hb' : (n.id == cur) = true := by simpa using hid
       simp only [hb', if_true]
-      rw [hc]
-      exact evalNode_setBodies sem (evalGraph sem d) ρ n subs' hb
+      exact evalNode_setBodies_shrink sem d ρ n _ subs' hc hb
     · have hb' : (n.id == cur) = false := by simpa using hid
       simp [hb']
 
+/-- the special case delivered earlier: same captures, bodies pairwise equivalent -/
+theorem bodiesShrink_of_same_caps {V} (sem : Sem V) (d : Nat) (C : List Name) (a : List (String × Graph)) :
+    ∀ b, BodiesEquiv (evalGraph sem d) a b → BodiesShrink sem d C C a b := by
+  induction a with
+  | nil => intro b h; cases b with
+    | nil => trivial
+    | cons _ _ => exact absurd h (by simp [BodiesEquiv])
+  | cons x a ih => intro b h; cases b with
+    | nil => exact absurd h (by simp [BodiesEquiv])
+    | cons y b => exact ⟨⟨h.1, fun _ _ hc => hc⟩, ih b h.2⟩
+
+/-- non-vacuity of `BodiesShrink` with captures that really shrink: a body mentioning only `a`, in a
+node that used to capture `a` and `b` -/
+example {V} (sem : Sem V) (d : Nat) :
+    BodiesShrink sem d ["a", "b"] ["a"]
+      [("then_branch", Graph.mk [] [] [.mk 7 "Relu" "" "" [some "a"] ["t"] [] [] [] []] ["t"])]
+      [("then_branch", Graph.mk [] [] [.mk 7 "Relu" "" "" [some "a"] ["t"] [] [] [] []] ["t"])] :=
+  ⟨⟨fun _ _ => rfl, by decide⟩, trivial⟩
+
 /-- **Equivalence through a whole pass**: if every single application keeps the meaning
 (`applyAt_equiv` for the given matches) and the recursion into bodies hands back equivalent bodies
-with the same captures, the output of `passLoop` — any number of repeated/overlapping applications
+whose captures are the old ones or fewer (`BodiesShrink`), the output of `passLoop` — any number of repeated/overlapping applications
 — has the meaning of its input. -/
 theorem applyRules_equiv {V} (sem : Sem V) (d : Nat) (rules : List Rule) (kind : Kind)
     (recurse : PassSt → Graph → Except Err (PassSt × Graph))
     (hstep : ∀ st lo g node st' lo' g' first,
       tryRules kind rules st lo g node = .ok (.applied st' lo' g' first) → GraphEquiv sem d g g')
     (hrec : ∀ st (node : Node) st' subs' (g1 : Graph), recurseBodies recurse st node.subs = .ok (st', subs') →
-      ∀ n ∈ g1.nodes, n.id = node.id → capsOf BIG subs' = n.caps ∧ BodiesEquiv (evalGraph sem d) subs' n.subs)
+      ∀ n ∈ g1.nodes, n.id = node.id → (∀ x ∈ capsOf BIG subs', x ∈ n.caps) ∧
+        BodiesShrink sem d n.caps (capsOf BIG subs') subs' n.subs)
     (fuel : Nat) (st : PassSt) (lo : List (String × Nat)) (g : Graph) (cur : Option Nat) st' lo' g'
     (h : passLoop rules kind recurse fuel st lo g cur = .ok (st', lo', g')) : GraphEquiv sem d g g' :=
   applyRules_preserves rules kind recurse (GraphEquiv sem d)
@@ -752,6 +780,34 @@ theorem commuteRule_keeps_options (r r' : Rule) (h : r' ∈ commuteRule r) :
   unfold commuteRule at h
   obtain ⟨sw, _, rfl⟩ := List.mem_map.mp h
   exact ⟨rfl, rfl, rfl, rfl, rfl, rfl, rfl⟩
+
+/-! ## Metadata -/
+
+/-- Tagging with the rule name and merging the matched nodes' metadata touches nothing but
+`metadata_props`: same number of replacement nodes, each with its id, operator, inputs, outputs,
+attributes and bodies as the replacement function built them. -/
+theorem tagAndMerge_structure (name : String) (from_ to : List Node) :
+    (tagAndMerge name from_ to).map (fun n => (n.id, n.op, n.domain, n.overload, n.inputs, n.outputs, n.attrs, n.caps)) =
+      to.map (fun n => (n.id, n.op, n.domain, n.overload, n.inputs, n.outputs, n.attrs, n.caps)) := by
+  have hset : ∀ (n : Node) m, (fun n : Node => (n.id, n.op, n.domain, n.overload, n.inputs, n.outputs, n.attrs, n.caps))
+      (n.setMeta m) = (n.id, n.op, n.domain, n.overload, n.inputs, n.outputs, n.attrs, n.caps) := by
+    intro n m; cases n; rfl
+  unfold tagAndMerge
+  by_cases hn : (name != "") = true
+  · simp only [hn, if_true]
+    cases to with
+    | nil => simp
+    | cons t rest =>
+      cases rest with
+      | nil => simp [hset]
+      | cons t2 r2 => simp [List.map_map, Function.comp_def, hset]
+  · simp only [hn, Bool.false_eq_true, if_false]
+    cases to with
+    | nil => simp
+    | cons t rest =>
+      cases rest with
+      | nil => simp [hset]
+      | cons t2 r2 => simp [List.map_map, Function.comp_def, hset]
 
 /-! ## Signature -/
 
@@ -1063,6 +1119,45 @@ theorem updOpsets_preserves (used : List (String × Option Nat)) :
         by_cases hc : v' != cur
         · simp [hc] at h
         · simp [hc] at h; exact ih _ _ d v h hv
+
+/-- **The opset imports the replacement needs are added**: after a successful
+`_update_opset_imports`, every domain the replacement's nodes use is imported — at the version the
+node asked for when the domain was new and a version was given, at 1 when new and none was given,
+at the version already imported otherwise (`updOpsets_preserves`). -/
+theorem updOpsets_covers (used : List (String × Option Nat)) :
+    ∀ (imports imports' : List (String × Nat)), updOpsets imports used = some imports' →
+      ∀ p ∈ used, (imports'.lookup p.1).isSome = true := by
+  induction used with
+  | nil => intro _ _ _ p hp; simp at hp
+  | cons q rest ih =>
+    intro i i' h p hp
+    obtain ⟨dom, ver⟩ := q
+    unfold updOpsets at h
+    cases hl : i.lookup dom with
+    | none =>
+      rw [hl] at h
+      simp only at h
+      rcases List.mem_cons.mp hp with rfl | hp'
+      · have : (i ++ [(dom, ver.getD 1)]).lookup dom = some (ver.getD 1) := by
+          rw [List.lookup_append, hl]; simp [List.lookup]
+        rw [updOpsets_preserves rest _ _ dom _ h this]; rfl
+      · exact ih _ _ h p hp'
+    | some cur =>
+      rw [hl] at h
+      have hrest : updOpsets i rest = some i' := by
+        cases ver with
+        | none => exact h
+        | some v' =>
+          simp only at h
+          by_cases hc : v' != cur
+          · simp [hc] at h
+          · simpa [hc] using h
+      rcases List.mem_cons.mp hp with rfl | hp'
+      · rw [updOpsets_preserves rest _ _ dom cur hrest hl]; rfl
+      · exact ih _ _ hrest p hp'
+
+example : updOpsets [("", 18)] [("", none), ("local", none), ("ext", some 3)] =
+    some [("", 18), ("local", 1), ("ext", 3)] := by decide
 
 theorem updOpsets_clash (imports : List (String × Nat)) (d : String) (cur v : Nat)
     (rest : List (String × Option Nat)) (h : imports.lookup d = some cur) (hne : v ≠ cur) :
